@@ -6,7 +6,7 @@ def run(ctx):
 
     def stages(ctx, mult, suffix, off):
         ctx.stage("c12" + suffix, "sdk/go/keepclient", "keepclient", ["C12/zz_verif_c12_test.go"], "TestVerifC12$",
-                  n * mult, HDR.format(imports="model.C12_model model.C12_run"), seed_offset=off, shard=20,
+                  n * mult, HDR.format(imports="model.KC_discover model.C12_model model.C12_run"), seed_offset=off, shard=20,
                   env={"VERIF_STAGE": "c12" + suffix})
     return standard(ctx, "C12", ["model/C12_run.vo"], stages,
                     rule="random service sets (1-32 services, 27-char/short/long uuids, shared 15-char suffixes), locators with 0-4 "
